@@ -1343,15 +1343,22 @@ class _Visit(Flow):
             if uses_cur and self.depth > 0:
                 # helper extraction: inline one level with the parameters bound to (cur, target)
                 bind = {}
+                consts = set()  # parameters bound to a constant work-set key at this call site ('do' / 'doing' / 'todo')
+                stores = {n.id for n in h.own_nodes() if isinstance(n, ast.Name) and isinstance(n.ctx, (ast.Store, ast.Del))}
+                kbv = self._kb(st)
                 for p in h.params():
                     a = _call_arg(h, call, p)
                     if a is not None and self._is_cur(a):
                         bind['cur'] = p
                     elif a is not None and self._is_tgt(a):
                         bind['tgt'] = p
+                    elif isinstance(a, ast.Constant) and isinstance(a.value, str) and p not in stores:
+                        consts.add((p, 0, a.value))
+                    elif isinstance(a, ast.Name) and a.id in kbv and p not in stores:
+                        consts.add((p, 0, kbv[a.id]))  # the caller loops over a literal key tuple
                 if 'cur' in bind and 'tgt' in bind:
                     sub = _Visit(self.ctx, h, bind['cur'], bind['tgt'], self.self_q, None, self.depth - 1)
-                    ex = sub.exits(h.node, _St(phase='helper', rm=False, sched=False, pend=None, mself=False, kb=frozenset(), emp=frozenset()))
+                    ex = sub.exits(h.node, _St(phase='helper', rm=False, sched=False, pend=None, mself=False, kb=frozenset(consts), emp=frozenset()))
                     for n, msg in sub.bad:
                         self._bad(n, f'(in helper {h.qname}) {msg}')
                     for n, d in sub.effects:
@@ -1929,7 +1936,9 @@ VARIANTS = [
     V('chronicle.append does not write the journal when it already exists', 'B', 'pl/logger/chronicle.py', 'append', "entries.append(entry)\n    with open(journal, 'tw', encoding='utf-8') as file:\n        json.dump(entries, file, indent=2)", "entries.append(entry)\n    if len(entries) == 1:\n        with open(journal, 'tw', encoding='utf-8') as file:\n            json.dump(entries, file, indent=2)", 'R-C05-4'),
     V('reply ignored when the target is no longer in doing', 'B', _FARM, 'Hand._res', 'dawgie.pl.schedule.complete(job, msg.runid, inc, msg.timing, state)', "if inc not in job.get('doing'):\n                log.warning('Ignoring response for %s: not in flight', done)\n                return\n            dawgie.pl.schedule.complete(job, msg.runid, inc, msg.timing, state)", 'R-C05-1'),
     V('complete only for targets still in doing (nested form)', 'B', _FARM, 'Hand._res', 'dawgie.pl.schedule.complete(job, msg.runid, inc, msg.timing, state)', "if inc in job.get('doing'):\n                dawgie.pl.schedule.complete(job, msg.runid, inc, msg.timing, state)", 'R-C05-1'),
+    V('keyed withdrawal helper never called for todo', 'B', _SCH, 'purge', "if target in node.get('do', []):\n        node.get('do').remove(target)\n    if target in node.get('doing', []):\n        node.get('doing').remove(target)\n    if target in node.get('todo', []):\n        node.get('todo').remove(target)", "def _drop(n, key, t):\n        members = n.get(key, [])\n        if t in members:\n            members.remove(t)\n\n    _drop(node, 'do', target)\n    _drop(node, 'doing', target)\n    _drop(node, 'do', target)", 'R-C05-2'),
     # ------------------------------------------------------------------ benign
+    V('withdrawal through a helper keyed by a constant parameter', 'N', _SCH, 'purge', "if target in node.get('do', []):\n        node.get('do').remove(target)\n    if target in node.get('doing', []):\n        node.get('doing').remove(target)\n    if target in node.get('todo', []):\n        node.get('todo').remove(target)", "def _drop(n, key, t):\n        members = n.get(key, [])\n        if t in members:\n            members.remove(t)\n\n    _drop(node, 'do', target)\n    _drop(node, 'doing', target)\n    _drop(node, 'todo', target)", None),
     V('chronicle.append with the list renamed', 'N', 'pl/logger/chronicle.py', 'append', 'entries', 'records', None, 'all'),
     V('routing extracted into Hand._settle with an early return', 'N', _FARM, None, _COMPLETE_CALL + _ROUTE + _RES_TAIL, 'Hand._settle(job, inc, state, msg)' + _RES_TAIL.replace('    @staticmethod\n    def _translate(state):', _SETTLE % 'return' + '    @staticmethod\n    def _translate(state):'), None),
     V('rename loop variable and lambda parameter', 'N', _SCH, 'purge', _LOOP_FIXED + '\n        purge(child, target)', 'for kid in filter(lambda k, me=node.tag: k.tag != me, node):\n        purge(kid, target)', None),
